@@ -20,16 +20,16 @@ ASSUMPTIONS = ["rustc's MIR (opt-level 0, drops elaborated) faithfully represent
 
 INTERIOR = re.compile(r"\b(Cell|RefCell|UnsafeCell|Mutex|RwLock|OnceLock|OnceCell|LazyLock|LazyCell|Atomic\w+|LazyStorage|EagerStorage)\b")
 STATIC_TABLE = {
-    "anchor_store::STATE": "thread-local anchor identity store; reset before and after every document by with_document_scope's guard",
+    "anchor_store::STATE": "thread-local anchor identity store; taken out whole for the duration of every document and put back by with_document_scope's guard",
     "de_error::MISSING_FIELD_FALLBACK": "thread-local fallback location; saved / restored by MissingFieldLocationGuard",
     "tags::TAG_LOOKUP_MAP": "LazyLock: written once on first use, immutable afterwards, content independent of any call",
     "ser_quoting::is_numeric_looking::RE": "OnceLock<Regex>: compiled once from a constant pattern",
 }
-STATE_WRITERS = {"anchor_store::reset", "anchor_store::with_anchor_context", "<anchor_store::Guard as std::ops::Drop>::drop",
+STATE_WRITERS = {"anchor_store::with_document_scope", "<anchor_store::with_document_scope::ScopeGuard as std::ops::Drop>::drop", "anchor_store::with_anchor_context", "<anchor_store::Guard as std::ops::Drop>::drop",
                  "anchor_store::store_rc", "anchor_store::store_arc", "anchor_store::store_rc_recursive", "anchor_store::store_arc_recursive"}
 FALLBACK_WRITERS = {"de_error::MissingFieldLocationGuard::new", "de_error::MissingFieldLocationGuard::cleared", "de_error::MissingFieldLocationGuard::replace_location",
                     "<de_error::MissingFieldLocationGuard as std::ops::Drop>::drop"}
-GUARDS = ["anchor_store::Guard", "anchor_store::with_document_scope::ResetGuard", "de_error::MissingFieldLocationGuard"]
+GUARDS = ["anchor_store::Guard", "anchor_store::with_document_scope::ScopeGuard", "de_error::MissingFieldLocationGuard"]
 FORGET = re.compile(r"(^|::)(mem::forget|ManuallyDrop::new|Box::leak|mem::ManuallyDrop|forget_unsized)($|::)|ManuallyDrop<.*>::new")
 HASH_ITER = {"iter", "iter_mut", "into_iter", "drain", "keys", "values", "values_mut", "retain", "into_keys", "into_values", "extract_if"}
 HASH_ITER_OK = {"path_map::PathMap::find_unique_by": "order-independent: returns a match only if it is the unique one"}
@@ -82,95 +82,77 @@ def unwind_drops(f, call_block):
     return out
 
 
-def rule_reset_complete(ctx, fx, config, prop="C15"):
-    """reset() clears every field of the thread's anchor state on every path.  A clear that sits behind a "something was stored"
-    flag is accepted only when every function that inserts into the field sets that flag — otherwise what one document registered
-    survives its scope: a hidden strong owner (weak edges never dangle) and the next document's anchors resolve to the old graph."""
-    rs = fx.fn("anchor_store::reset")
-    ctx.saw(rs)
-    st = fx.adt("anchor_store::AnchorState")
-    store = fx.adt("anchor_store::AnchorStore")
-    store_fields = {"store." + x["name"] for x in store["variants"][0]["fields"]}
-    fields = {x["name"] for x in st["variants"][0]["fields"] if x["name"] != "store"} | store_fields
-    fam = list(fx.family(rs))
+def _state_ty(fx):
+    """type of the thread-local anchor state (the `T` of `STATE: RefCell<T>`)"""
+    for s_ in fx.statics:
+        if logical_static(s_["path"]) == "anchor_store::STATE":
+            m = re.search(r"RefCell<([\w:]+)>", s_["ty"])
+            if m:
+                return m.group(1)
+    raise MissingAnchor("thread-local anchor_store::STATE not found")
 
-    def field_of(r):
-        m = re.search(r"\.((?:store\.)?\w+)\)*$", r)
-        return m.group(1) if m and m.group(1) in fields else None
-    # clearing sites per field: `.clear()` on the field, or an assignment of a constant / default to it
-    sites = {}
-    for g in fam:
-        for b, t in g.calls():
-            if last_seg(fx.callee(t)) == "clear" and t["args"]:
-                with g.deep():
-                    fld = field_of(render(g.sym_operand(t["args"][0])))
-                if fld:
-                    sites.setdefault(fld, []).append((g, b))
-        for b, i, s_ in g.stmts():
-            if s_["k"] == "assign" and s_["p"]["pr"]:
-                with g.deep():
-                    fld = field_of(render(g.sym_place(s_["p"])))
-                v = g.sym_rvalue(s_["rv"])
-                fresh = v[0] == "const" or (v[0] == "call" and last_seg(v[1]) in ("default", "new", "take")) or (v[0] == "aggr" and not v[-1])
-                if fld and fresh:
-                    sites.setdefault(fld, []).append((g, b))
-                # the whole `store` replaced by a fresh one clears every table in it
-                with g.deep():
-                    whole = re.search(r"\.store\)*$", render(g.sym_place(s_["p"])))
-                if whole and fresh:
-                    for sf in store_fields:
-                        sites.setdefault(sf, []).append((g, b))
-    n = 0
-    for fld in sorted(fields):
-        n += 1
-        ss = sites.get(fld, [])
-        if not ctx.check(bool(ss), "STATE", "%s:STATE:reset-complete:%s" % (prop, fld), "reset() clears `%s`" % fld, "reset() does not clear `%s`" % fld, config, ctx.where(rs)):
+
+def _whole_state_swaps(fx, f, st_ty, which):
+    """blocks of `f` that call LocalKey::with(STATE, closure) whose closure swaps the *whole* state: `mem::take` (which = take)
+    or `mem::replace` (which = replace) instantiated at the state's own type and applied to the borrowed cell itself"""
+    out = []
+    for b, t in f.calls():
+        if not fx.callee(t).endswith("LocalKey::with") or render(f.sym_operand(t["args"][0])) != "const:anchor_store::STATE":
             continue
-        g = ss[0][0]
-        blocks = [b for g2, b in ss if g2 is g]
-        if must_pass(g, [0], blocks):
-            ctx.ok("STATE", "%s:STATE:reset-complete:%s:every-path" % (prop, fld), "`%s` is cleared on every path of reset()" % fld, config, ctx.where(g, blocks[0]))
+        sym = f.sym_operand(t["args"][1])
+        if sym[0] != "mkclosure":
             continue
-        # conditional: find the flag(s) guarding every clearing site
-        flags = set()
-        for b in blocks:
-            for sb, sym, tt, ff in bool_switches(g):
-                with g.deep():
-                    r = render(g.sym_operand(g.blocks[sb]["term"]["o"]))
-                fl = field_of(r)
-                if fl and g.edge_dominates(sb, tt, b):
-                    flags.add(fl)
-        okf = False
-        missing = []
-        if len(flags) == 1 and fld != list(flags)[0]:
-            flag = list(flags)[0]
-            okf = True
-            for h in fx.fns.values():
-                if not h.npath.startswith("anchor_store::"):
-                    continue
-                ins = []
-                for b, t in h.calls():
-                    if last_seg(fx.callee(t)) in ("insert", "push", "entry", "extend") and t["args"]:
-                        with h.deep():
-                            if field_of(render(h.sym_operand(t["args"][0]))) == fld:
-                                ins.append(b)
-                if not ins:
-                    continue
-                sets = []
-                for b, i, s_ in h.stmts():
-                    if s_["k"] == "assign" and s_["p"]["pr"]:
-                        with h.deep():
-                            if field_of(render(h.sym_place(s_["p"]))) == flag and h.sym_rvalue(s_["rv"]) == ("const", True, "bool"):
-                                sets.append(b)
-                if not (sets and all(must_pass(h, [ib], sets) or any(h.dominates(sb2, ib) for sb2 in sets) for ib in ins)):
-                    okf = False
-                    missing.append(h.npath)
-        elif fld in flags and len(flags) == 1:
-            # the flag itself: reset to false under its own test — it is false on the other path already
-            okf = True
-        ctx.check(okf, "STATE", "%s:STATE:reset-complete:%s:every-path" % (prop, fld), "`%s` is cleared behind a flag that every inserter sets" % fld,
-                  "reset() clears `%s` only on some paths%s: what one document registered there survives its scope (a hidden strong owner keeps weak edges alive; the next document's anchors resolve to the previous document's values)" % (fld, (" (behind `%s`, which %s never set(s))" % (sorted(flags)[0], sorted(missing))) if missing else ""), config, ctx.where(g, blocks[0]))
-    ctx.floor("STATE.reset-fields", n, 6, config)
+        k = fx.fn_opt(norm(sym[1]))
+        if k is None:
+            continue
+        for kb, kt in k.calls():
+            if fx.callee(kt) == "std::mem::" + which and (kt["f"].get("args") or [None])[0] == st_ty:
+                with k.deep():
+                    a0 = render(k.sym_operand(kt["args"][0]))
+                if re.match(r"^deref_mut\(borrow_mut\(\w+\)\)$", a0) and kt["dest"]["l"] == 0 and not kt["dest"]["pr"]:
+                    out.append(b)
+    return out
+
+
+def rule_reset_complete(ctx, fx, config, prop="C15"):
+    """STATE:scope-swaps-whole-state — a document runs on a fresh anchor state and leaves none behind: the scope takes the
+    *whole* thread-local state out on entry (`mem::take` at the state's own type, so a field added later is covered) and its
+    guard's Drop puts the enclosing call's state back with `mem::replace`, handing the finished document's state out of the
+    borrow.  Nothing per-field is left to forget; what this rule fixes is that both swaps are wholesale, that the value put
+    back is the one taken (not a fresh default: that would wipe the enclosing call's table), and that no other function
+    clears or replaces the state."""
+    ds = fx.fn(proto.SCOPE)
+    ctx.saw(ds)
+    st_ty = _state_ty(fx)
+    takes = _whole_state_swaps(fx, ds, st_ty, "take")
+    ctx.check(len(takes) == 1, "STATE", "%s:STATE:scope-swaps-whole-state:take" % prop, "with_document_scope takes the whole `%s` out of the thread-local" % st_ty,
+              "with_document_scope no longer takes the whole anchor state out on entry (found %d whole-state takes): a document starts on what an earlier or enclosing call left" % len(takes), config, ctx.where(ds))
+    guards = [f for f in fx.fns.values() if f.d.get("impl_trait") == "std::ops::Drop" and f.file.endswith("anchor_store.rs") and _whole_state_swaps(fx, f, st_ty, "replace")]
+    if not ctx.check(len(guards) == 1, "STATE", "%s:STATE:scope-swaps-whole-state:restore" % prop, "one guard's Drop puts the enclosing state back with a whole-state replace",
+                     "no (or more than one) Drop impl in anchor_store.rs replaces the whole anchor state: the finished document's state stays in the thread-local", config, ctx.where(ds)):
+        return None
+    gd = guards[0]
+    ctx.saw(gd)
+    # the value put back is the one the guard was built with: replace's 2nd argument is an upvar of the closure that resolves,
+    # in Drop::drop, to the guard's own field (through take / unwrap*), and the guard's field is built from the take's result
+    rb = _whole_state_swaps(fx, gd, st_ty, "replace")[0]
+    with gd.deep():
+        fed = render(gd.sym_operand(gd.blocks[rb]["term"]["args"][1]))
+    src_ok = False
+    with gd.deep():
+        for b, t in gd.calls():
+            if last_seg(fx.callee(t)) in ("unwrap_or_default", "unwrap", "expect", "unwrap_or_else", "take") and re.search(r"self\.\w+", render(gd.sym_operand(t["args"][0]))):
+                src_ok = True
+    gadt = gd.d.get("impl_adt") or ""
+    built = []
+    with ds.deep():
+        for b, i, adt, var, fl, ops, s_ in aggregates(ds):
+            if adt == gadt or (gadt and adt.endswith(gadt.rsplit("::", 1)[-1])):
+                built.append((b, " ".join(render(o) for o in ops)))
+    from_take = bool(built) and all(re.search(r"with\(const:anchor_store::STATE", r) for b, r in built)
+    ctx.check(src_ok and from_take, "STATE", "%s:STATE:scope-swaps-whole-state:restores-what-it-took" % prop, "the guard carries the state taken on entry and puts that back",
+              "the state put back on exit is not the one taken on entry (guard built from %s): a nested call wipes or corrupts the enclosing call's anchor table" % [r[:60] for b, r in built], config, ctx.where(gd))
+    return gd
 
 
 def run(ctx):
@@ -215,21 +197,20 @@ def run(ctx):
         # ---- 3. with_document_scope
         ds = fx.fn(proto.SCOPE)
         ctx.saw(ds)
-        resets = [b for b, t in ds.calls() if fx.callee(t) == "anchor_store::reset"]
-        guards = [b for b, i, adt, var, fl, ops, s_ in aggregates(ds) if adt.endswith("::ResetGuard")]
+        gd = rule_reset_complete(ctx, fx, config)
+        gname = (gd.d.get("impl_adt") or "?").rsplit("::", 1)[-1] if gd is not None else "?"
+        takes = _whole_state_swaps(fx, ds, _state_ty(fx), "take")
+        guards = [b for b, i, adt, var, fl, ops, s_ in aggregates(ds) if adt.endswith("::" + gname)]
         fcalls = [b for b, t in ds.calls() if t["f"].get("name") == "call_once" and render(ds.sym_operand(t["args"][0])) == "f"]
         ctx.check(len(fcalls) == 1, "STATE", "C15:STATE:document-scope:closure-call", "the closure is invoked exactly once", "with_document_scope no longer invokes its closure exactly once", config, ctx.where(ds))
         for fb in fcalls:
-            ctx.check(any(ds.dominates(rb, fb) for rb in resets), "STATE", "C15:STATE:document-scope:reset-before", "reset() precedes the user code", "user code can run on a stale anchor table (no reset before)", config, ctx.where(ds, fb))
-            ctx.check(any(ds.dominates(gb, fb) for gb in guards), "STATE", "C15:STATE:document-scope:guard-before", "the reset guard is constructed before the user code runs", "the reset guard is constructed after the user code (a panic / error would leave the table populated)", config, ctx.where(ds, fb))
+            ctx.check(any(ds.dominates(rb, fb) for rb in takes), "STATE", "C15:STATE:document-scope:reset-before", "the state is set aside before the user code", "user code can run on a stale anchor table (state not taken out before)", config, ctx.where(ds, fb))
+            ctx.check(any(ds.dominates(gb, fb) for gb in guards), "STATE", "C15:STATE:document-scope:guard-before", "the restoring guard is constructed before the user code runs", "the restoring guard is constructed after the user code (a panic / error would leave this document's table in place and lose the enclosing call's)", config, ctx.where(ds, fb))
             ud = unwind_drops(ds, fb)
-            ctx.check(any("ResetGuard" in x for x in ud), "STATE", "C15:STATE:document-scope:unwind-drop", "the guard is dropped on the unwind edge of the user call", "a panicking visitor unwinds past with_document_scope without dropping the reset guard", config, ctx.where(ds, fb))
+            ctx.check(any(gname in x for x in ud), "STATE", "C15:STATE:document-scope:unwind-drop", "the guard is dropped on the unwind edge of the user call", "a panicking visitor unwinds past with_document_scope without dropping the restoring guard", config, ctx.where(ds, fb))
             # on the normal path the guard is dropped (drop terminator or std::mem::drop) before returning
-            drops = [b for b in ds.live_blocks if (ds.blocks[b]["term"]["k"] == "drop" and "ResetGuard" in ds.blocks[b]["term"].get("pty", "")) or (ds.blocks[b]["term"]["k"] == "call" and fx.callee(ds.blocks[b]["term"]) == "std::mem::drop" and "ResetGuard" in str(ds.blocks[b]["term"]["f"].get("args")))]
-            ctx.check(must_pass(ds, [ds.blocks[fb]["term"]["t"]], drops), "STATE", "C15:STATE:document-scope:drop-after", "the guard is dropped on every normal path after the user code", "the reset guard can survive with_document_scope (forgotten / moved out)", config, ctx.where(ds, fb))
-        gd = [f for f in fx.fns.values() if f.d.get("impl_trait") == "std::ops::Drop" and f.npath.endswith("ResetGuard as std::ops::Drop>::drop")]
-        ctx.check(len(gd) == 1 and any(fx.callee(t) == "anchor_store::reset" for b, t in gd[0].calls()), "STATE", "C15:STATE:document-scope:guard-drop-resets", "ResetGuard::drop resets the store", "ResetGuard::drop no longer resets the anchor store", config, ctx.where(ds))
-        rule_reset_complete(ctx, fx, config)
+            drops = [b for b in ds.live_blocks if (ds.blocks[b]["term"]["k"] == "drop" and gname in ds.blocks[b]["term"].get("pty", "")) or (ds.blocks[b]["term"]["k"] == "call" and fx.callee(ds.blocks[b]["term"]) == "std::mem::drop" and gname in str(ds.blocks[b]["term"]["f"].get("args")))]
+            ctx.check(must_pass(ds, [ds.blocks[fb]["term"]["t"]], drops), "STATE", "C15:STATE:document-scope:drop-after", "the guard is dropped on every normal path after the user code", "the restoring guard can survive with_document_scope (forgotten / moved out)", config, ctx.where(ds, fb))
         # ---- 4. with_anchor_context
         ac = fx.fn("anchor_store::with_anchor_context")
         ctx.saw(ac)
